@@ -496,7 +496,7 @@ class HttpBeaconClient:
             command_name = "empty_task"
 
         on_handler = getattr(self, f"on_{command_name}", None)
-        handlers = self.task_map.get(command_id, [])
+        handlers = list(self.task_map.get(command_id, []))
 
         # if there is a "on_command" handler, add it to the list
         if on_handler:
@@ -504,7 +504,7 @@ class HttpBeaconClient:
 
         # if there is no handler, check if there is a catch all handler
         if not handlers:
-            handlers = self.task_map.get(-1, [])
+            handlers = list(self.task_map.get(-1, []))
             on_catch_all = getattr(self, "on_catch_all", None)
             if on_catch_all:
                 handlers.append(on_catch_all)
